@@ -38,7 +38,7 @@ func fuzzOne(data []byte) (*vlib.Failure, []caseInfo) {
 
 func fuzzSeeds() [][]byte {
 	arr := encodeRoaring([]RCont{{Key: 0, Kind: "array", Vals: []uint16{1, 2, 9}}})
-	run := encodeRoaring([]RCont{{Key: 1, Kind: "run", Runs: [][2]int{{0, 99}, {200, 65535}}}})
+	run := encodeRoaring([]RCont{{Key: 1, Kind: "run", Runs: [][2]int{{0, 99}, {200, 700}, {65000, 65535}}}})
 	seeds := [][]byte{
 		encodeBody(nil),
 		encodeFile(nil),
